@@ -377,7 +377,7 @@ def c04(ctx):
     _set_const(ctx, "MC_Pool.cfg", "MaxCalls", 3 if quick else 4)
     r = ctx.tlc_expect_ok("MC_Pool.tla", "MC_Pool.cfg", timeout=6000, xmx="24g")
     rp = os.path.join(ctx.scratch, "hist.json")
-    ctx.vdrive(["histreplay", "-in", r["out"], "-out", rp], timeout=7000)
+    ctx.vdrive(["histreplay", "-in", r["out"], "-out", rp] + ([] if quick else ["-stride", "7"]), timeout=14000)
     os.remove(r["out"])
     rep = ctx.report(rp)
     trep, results = _treetrace(ctx, quick, cov, 1)
